@@ -303,3 +303,9 @@ package ingest
 //@   ensures fresh(result.ids) && len(result.ids) == len(a.ids) && fresh(result.polygons) && len(result.polygons) == len(a.polygons)
 //@   ensures forall(j, 0, len(a.ids), implies(!isnil(a.ids[j]), fresh(result.ids[j]) && len(result.ids[j]) == len(a.ids[j])))
 //@   ensures forall(j, 0, len(a.polygons), result.polygons[j] == a.polygons[j])
+
+//@ func (*AreaFeature).CloneAreaFeature
+//@   requires a != nil
+//@   ensures result != nil && fresh(result) && fresh(result.Tags) && fresh(result.AreaMembers.ids) && fresh(result.AreaMembers.polygons)
+//@   ensures result.AreaID == a.AreaID && len(result.Tags) == len(a.Tags) && len(result.AreaMembers.ids) == len(a.AreaMembers.ids)
+//@   ensures forall(j, 0, len(a.AreaMembers.ids), implies(!isnil(a.AreaMembers.ids[j]), fresh(result.AreaMembers.ids[j]) && len(result.AreaMembers.ids[j]) == len(a.AreaMembers.ids[j])))
